@@ -6,6 +6,7 @@ import (
 	"encoding/hex"
 	"encoding/json"
 	"fmt"
+	"io"
 	"os"
 	"reflect"
 	"sort"
@@ -74,7 +75,12 @@ func progOutcome(src []byte) (s string, why string) {
 		}
 	}()
 	var out, lg bytes.Buffer
-	p, err := bcl.Parse(src, "det", bcl.OptOutput(&out), bcl.OptLogger(&lg))
+	// the caller's buffer is its own again once Parse has returned: it is overwritten here, and the program must not notice
+	buf := append([]byte{}, src...)
+	p, err := bcl.Parse(buf, "det", bcl.OptOutput(&out), bcl.OptLogger(&lg))
+	for i := range buf {
+		buf[i] = 'x'
+	}
 	var sb strings.Builder
 	fmt.Fprintf(&sb, "parse err=%v log=%q\n", err, lg.String())
 	if err != nil {
@@ -86,6 +92,13 @@ func progOutcome(src []byte) (s string, why string) {
 		return sb.String(), ""
 	}
 	fmt.Fprintf(&sb, "dump=%x\n", d1.Bytes())
+	if q, qerr := bcl.Parse(src, "det", bcl.OptOutput(io.Discard), bcl.OptLogger(io.Discard)); qerr == nil {
+		var d0 bytes.Buffer
+		q.Dump(&d0)
+		if !bytes.Equal(d0.Bytes(), d1.Bytes()) {
+			return sb.String(), "a Prog changes when the caller reuses the byte slice it had passed to Parse"
+		}
+	}
 	res, bind, xerr := bcl.Execute(p)
 	o1, l1 := out.String(), lg.String()
 	fmt.Fprintf(&sb, "exec err=%v out=%q log=%q blocks=%s binding=%s\n", xerr, o1, l1, canonBlocks(res), canonBinding(bind))
@@ -166,6 +179,7 @@ func replayDet(args []string) int {
 		}
 		var first string
 		var run func() (string, string)
+		dkey := raw
 		switch c.Fam {
 		case "bind":
 			// by content, so that every process thins alike: the order-insensitive bind cases one in `thin`, the sensitive ones
@@ -192,6 +206,36 @@ func replayDet(args []string) int {
 					binding = bcl.SliceBinding{Value: bs}
 				}
 				return bindOutcome(&bc, st, binding), ""
+			}
+		case "pipe":
+			// a reader script of the pipeline model: the outcome of ParseFile (error, program or none, diagnostics) is the same in
+			// every run, whatever the number of processors
+			var pc pipeCase
+			json.Unmarshal(raw, &pc)
+			key, _ := json.Marshal(pc.Script)
+			if !s.note(key, len(pc.Script) >= 2, raw) {
+				return
+			}
+			dkey = key // the model prints one line per outcome state of a script: the script identifies the case
+			run = func() (string, string) {
+				steps := make([]readStep, len(pc.Script))
+				for i, it := range pc.Script {
+					steps[i] = it.step()
+				}
+				var lg bytes.Buffer
+				f := &scriptedFile{name: "det.bcl", steps: steps}
+				var p *bcl.Prog
+				var err error
+				pan := ""
+				func() {
+					defer func() {
+						if r := recover(); r != nil {
+							pan = fmt.Sprint(r)
+						}
+					}()
+					p, err = bcl.ParseFile(f, bcl.OptLogger(&lg), bcl.OptOutput(io.Discard))
+				}()
+				return fmt.Sprintf("panic=%q err=%v prog=%v log=%q", pan, err, p != nil, lg.String()), ""
 			}
 		default:
 			src := bytesOf(c.Src)
@@ -235,7 +279,7 @@ func replayDet(args []string) int {
 			}
 		}
 		if dig != nil {
-			h := sha256.Sum256(raw)
+			h := sha256.Sum256(dkey)
 			g := sha256.Sum256([]byte(first))
 			fmt.Fprintf(dig, "%s %s\n", hex.EncodeToString(h[:8]), hex.EncodeToString(g[:12]))
 		}
